@@ -7,7 +7,7 @@ call/return events of the real cache).  Harness: harness/cmd/lru (lru_seq, lru_c
  1. TLC enumerates every sequential history of length L (5 quick, 6 thorough) over 4 keys x capacity {1,2,3} (per key: Get, Put fresh,
     Put nil), one representative per key renaming, and checks the model-level invariants; every complete history is a scenario.
  2. Every scenario is replayed on tls.NewLRUClientSessionCache; TLC validates every recorded call
-    (result, identity of the returned pointer, len(map), list length) against LRU!Do.
+    (result, identity of the returned pointer, len(map), list length, keys of the recency list front to back) against LRU!Do.
  3. Thorough: TLC -simulate produces long random histories (also capacity 0 => default 64, 70 keys).
  4. Concurrent: seeded programs for several goroutines run on one cache under -race; only call-start /
     call-end are logged and TLC searches for a linearisation (LRU!Lin) explaining all results.
@@ -101,11 +101,13 @@ def _sig(kind, rej):
         if obs == mod and ev["ev"] == "Do":
             if ev["ok"] and ev["rv"] != m["res"]["v"]:
                 obs, mod = "value", "othervalue"
-            else:
+            elif ev["mlen"] != m["len"] or ev["qlen"] != m["len"]:
                 obs, mod = "len=%+d" % (ev["mlen"] - m["len"]), "len"
+            else:
+                obs, mod = "other-recency-order", "recency-order"
         detail = "model=%s:impl=%s" % (mod, obs)
     elif ev["ev"] == "Final":
-        detail = "model-len%+d" % (ev["mlen"] - m["len"])
+        detail = ("model-len%+d" % (ev["mlen"] - m["len"])) if ev["mlen"] != m["len"] else "recency-order"
     else:
         detail = ev["ev"]
     cause = "after-nil-put-of-absent-key" if any(x["nilabs"] for x in rej) else "no-nil-put-of-absent-key"
@@ -146,7 +148,7 @@ def run(ctx):
     assumptions = [
         "key names are uninterpreted by the cache: the exhaustive part enumerates histories up to renaming of keys (4 keys) and replays each "
         "class under one seeded random renaming; values are compared by pointer identity",
-        "the harness reads len(c.m) and c.q.Len() by reflection, sequentially (after every call / after joining all goroutines)",
+        "the harness reads len(c.m), c.q.Len() and the keys of the list c.q by reflection, sequentially (after every call / after joining all goroutines)",
         "concurrent schedules are those the Go scheduler produced (16 cores, optional seeded yields), not an exhaustive set; "
         "data-race freedom is the verdict of the Go race detector on those runs, not of TLC",
         "call/return events are ordered by a process-wide atomic counter taken before the call and after the return",
@@ -251,7 +253,7 @@ def run(ctx):
         for s, lst in sorted(groups.items()):
             sc, es, r = conf[s]
             what = ("sequential history rejected by LRU_Trace at call %d: %s returned ok=%s rv=%s (len %s), model: %s; history cap=%d %s"
-                    % (r["at"], {k: r["ev"][k] for k in ("op", "k", "v") if k in r["ev"]}, r["ev"].get("ok"), r["ev"].get("rv"), r["ev"].get("mlen"),
+                    % (r["at"], {k: r["ev"][k] for k in ("op", "k", "v") if k in r["ev"]}, r["ev"].get("ok"), r["ev"].get("rv"), "%s, list %s" % (r["ev"].get("mlen"), r["ev"].get("order")),
                        r["model"], sc["cap"], [(o["op"], o["k"], o["v"]) for o in sc["ops"]]))
             for _ in lst:
                 ctx.finding(s, what, {"scenario": sc, "events": es, "rejection": r})
@@ -334,7 +336,7 @@ def run(ctx):
     print("laps:", ctx.laps)
 
     samples = [{"scenario": {"cap": s["cap"], "ops": [(o["op"], o["k"], o["v"]) for o in s["ops"]]},
-                "recorded": [{k: e[k] for k in ("op", "k", "ok", "rv", "mlen") if k in e} for e in per[s["id"]][1:]]}
+                "recorded": [{k: e[k] for k in ("op", "k", "ok", "rv", "mlen", "order") if k in e} for e in per[s["id"]][1:]]}
                for s in (scen[4], scen[len(scen) // 3], scen[nexh - 1])]
     if cper:
         i0 = next(iter(cper))
@@ -502,6 +504,8 @@ def _canaries(ctx, per, rejected, cper, crejected):
     muts.append(("miss->hit(nil)", [dict(e, ok=True) if k == n else e for k, e in enumerate(es)]))
     es, n = find(lambda e: e["ev"] == "Do" and e["op"] == "Put" and e["v"] != 0)
     muts.append(("len", [dict(e, mlen=e["mlen"] + 1) if k == n else e for k, e in enumerate(es)]))
+    es2, n2 = find(lambda e: e["ev"] == "Do" and len(e["order"]) >= 2)
+    muts.append(("order", [dict(e, order=[e["order"][1], e["order"][0]] + e["order"][2:]) if k == n2 else e for k, e in enumerate(es2)]))
     muts.append(("qlen", [dict(e, qlen=e["qlen"] - 1) if k == n else e for k, e in enumerate(es)]))
     for es in good:     # drop an inserting Put that is followed by a Get: the Get's sizes no longer fit
         n = next((k for k in range(1, len(es) - 1) if es[k]["ev"] == "Do" and es[k]["op"] == "Put" and es[k]["v"] != 0
@@ -522,6 +526,9 @@ def _canaries(ctx, per, rejected, cper, crejected):
             break
     ces = cgood[-1]
     muts.append(("final-len", [dict(e, mlen=e["mlen"] + 1) if e["ev"] == "Final" else e for e in ces]))
+    ces = next((c for c in cgood if len(c[-1]["order"]) >= 2), None)
+    if ces is not None:
+        muts.append(("final-order", [dict(e, order=e["order"][::-1]) if e["ev"] == "Final" else e for e in ces]))
     batch = []
     for k, (_, es) in enumerate(muts):
         batch += [dict(es[0], id=k + 1)] + es[1:]
